@@ -9,7 +9,7 @@ EXTENDS Naturals, Sequences, FiniteSets
 
 IsWsE(c) == c \in {32, 9, 10, 11, 12, 13, 133, 160, 5760, 8232, 8233, 8239, 8287, 12288} \/ (c >= 8192 /\ c <= 8202)   \* char::is_whitespace
 \* \w of the regex crate for the characters used: ASCII letters, digits, underscore, and the non-ASCII letters
-IsWordE(c) == c \in (48..57) \cup (65..90) \cup (97..122) \cup {95} \/ (c >= 170 /\ ~IsWsE(c))
+IsWordE(c) == c \in (48..57) \cup (65..90) \cup (97..122) \cup {95} \/ (c >= 170 /\ ~IsWsE(c) /\ c # 8203)     \* (U+200B is a format character, not \w)
 InTokE(re, c) == CASE re = "w" -> IsWordE(c) [] re = "S" -> ~IsWsE(c) [] OTHER -> FALSE     \* "dot": the regex `.` never groups
 
 \* ---- tokenize: regex matches are tokens, what lies between them is cut into single characters; the first token is
